@@ -8,6 +8,7 @@ import ast
 from ..cfg import CFG
 from ..core import AnalysisError, const_value
 from ..defuse import DefUse, Terms, show, walk_term
+from ..defuse import key as tkey
 from ..memo import check_no_cross_call_state
 
 EXPLANATION = (
@@ -322,7 +323,7 @@ def _groupby_max(ctx, f):
     asc = sv_kw.get("ascending", ("const", True))
     keep = chain[2][2].get("keep", ("const", "first"))
     by = sv_args[0] if sv_args else sv_kw.get("by")
-    by_txt = show(by, 200) if by else ""
+    by_txt = tkey(by, 200) if by else ""
     ends_with_max = by is not None and by[0] == "bin" and by[1] == "+" \
         and by[3] == ("list", (("param", p_max),))
     ok_dir = (asc == ("const", True) and keep == ("const", "last")) or (
@@ -336,7 +337,7 @@ def _groupby_max(ctx, f):
               f"ascending={show(asc)}, keep={show(keep)} keeps the "
               "minimum of each group", node=rets[0][0])
     dd = chain[2][1]
-    ok_dd = bool(dd) and show(dd[0], 100) == show(by[2], 100) if \
+    ok_dd = bool(dd) and tkey(dd[0], 100) == tkey(by[2], 100) if \
         ends_with_max else False
     ctx.check(ok_dd, "C15b-one-row-per-group", f,
               "duplicates are dropped on exactly the group columns",
